@@ -28,6 +28,7 @@ import (
 	"seehuhn.de/go/postscript"
 	"seehuhn.de/go/postscript/funit"
 	"seehuhn.de/go/postscript/pfb"
+	"seehuhn.de/go/postscript/psenc"
 )
 
 // Read reads a Type 1 font from a reader.
@@ -290,11 +291,13 @@ creationDateLoop:
 	}
 
 	for _, seac := range ctx.seacs {
-		if seac.base < 0 || len(encoding) <= seac.base || seac.accent < 0 || len(encoding) <= seac.accent {
+		if seac.base < 0 || seac.base > 255 || seac.accent < 0 || seac.accent > 255 {
 			continue
 		}
-		base := glyphs[encoding[byte(seac.base)]]
-		accent := glyphs[encoding[byte(seac.accent)]]
+		// The character codes of a seac command refer to the standard
+		// encoding, not to the encoding of the font.
+		base := glyphs[psenc.StandardEncoding[seac.base]]
+		accent := glyphs[psenc.StandardEncoding[seac.accent]]
 		if base == nil || accent == nil {
 			continue
 		}
